@@ -119,6 +119,7 @@ impl Check for C07 {
             out.evals += 1;
             out.count("parses", 1);
             let detail = |x: String| json!({"grammar": b.src, "input": inp.iter().map(|t| rc.ag.tokens[*t].name.clone()).collect::<Vec<_>>(), "budget": bname, "token_costs": rc.ag.tokens.iter().zip(costs.iter()).map(|(t, c)| json!([t.name, c])).collect::<Vec<_>>(), "obs": x});
+            trace(|| format!("budget {bname}; costs {:?}; input {:?}; grammar {}", costs, inp.iter().map(|t| rc.ag.tokens[*t].name.clone()).collect::<Vec<_>>().join(" "), b.src.replace('\n', " ")));
             let rec = match record_parse(b, &rc.st, &si, &cost, budget) {
                 Ok(r) => r,
                 Err(p) => {
